@@ -1,9 +1,11 @@
 (* Extraction of the executable hash-table model and its instantiation (ExtrOcamlBasic only). *)
 From Coq Require Import ZArith List Extraction ExtrOcamlBasic.
 From MomoCommon Require Import GenPrelude.
-From C01 Require Gen_OpenN1_ops Gen_OpenN1 Gen_LimP1t Gen_Lim4 Gen_LimP Open8Match HashModel HashInst HashInstProofs Gen_LimP4 Gen_Open2N2 Gen_Open2N2w Gen_OpenN1.
+From C01 Require Gen_One Gen_Open2N2_ops Gen_Open2N2 Gen_OpenN1_ops Gen_OpenN1 Gen_LimP1t Gen_Lim4 Gen_LimP Open8Match HashModel HashInst HashInstProofs Gen_LimP4 Gen_Open2N2 Gen_Open2N2w Gen_OpenN1.
 Extraction Blacklist List String Int.   (* only renames the generated file List.ml -> List0.ml (clash with OCaml's stdlib List used by the I/O helper) *)
-Separate Extraction Gen_OpenN1_ops.AddCrt Gen_OpenN1_ops.Remove Gen_OpenN1_ops.pvSetEmpty Gen_OpenN1_ops.IsFull Gen_OpenN1_ops.pvGetCount Gen_OpenN1.UpdateMaxProbe
+Separate Extraction Gen_One.AddCrt Gen_One.Remove Gen_One.Clear Gen_One.IsFull Gen_One.WasFull
+  Gen_Open2N2_ops.AddCrt Gen_Open2N2_ops.Remove Gen_Open2N2_ops.pvSetEmpty Gen_Open2N2_ops.IsFull Gen_Open2N2_ops.pvGetCount Gen_Open2N2.UpdateMaxProbe
+  Gen_OpenN1_ops.AddCrt Gen_OpenN1_ops.Remove Gen_OpenN1_ops.pvSetEmpty Gen_OpenN1_ops.IsFull Gen_OpenN1_ops.pvGetCount Gen_OpenN1.UpdateMaxProbe
   Gen_LimP1t.pvGetCount Gen_LimP1t.pvGetMemPoolIndex Gen_LimP1t.pvGetMemPoolIndexOf Gen_LimP1t.IsFull Gen_LimP1t.WasFull
   Gen_Lim4.WasFull Gen_Lim4.pvSet Gen_Lim4.pvGetMemPoolIndex Gen_Lim4.stateNull Gen_Lim4.stateNullWasFull
   Gen_LimP.WasFull Gen_LimP.pvGetMemPoolIndexOf Gen_LimP.stateNull Gen_LimP.stateNullWasFull Open8Match.visit Open8Match.movemask HashInst.it_begin_cfg HashInst.it_next_cfg HashInst.it_get_cfg HashInst.it_remove_cfg HashInst.wstep_cfg HashInst.winit_cfg HashInst.step_cfg HashInst.shape_cfg HashInst.init_cfg HashInst.traverse_cfg HashInst.count_cfg
